@@ -67,6 +67,7 @@ class BMachine(Machine):
             l, r = self.ev(e['lhs']), self.ev(e['rhs'])
             if isinstance(l, Elem) or isinstance(r, Elem):
                 return int((l is r) == (e['op'] == '=='))
+            return int((l == r) == (e['op'] == '=='))
         if k == 'Bin' and e['op'] == '|=':
             t = strip_casts(e['lhs'])
             v = self.ev(t) | self.ev(e['rhs'])
